@@ -1116,8 +1116,36 @@ def corner_group_rows(name, dtype):
         ("scale=e^-big,t=1e-3", 2.5, 3, True, 1e-3, 3, -big),
     ]
     rows = []
+    D = U.dt(dtype)
+    P = U.pp()
+    s2 = float(torch.tensor(0.5, dtype=D).sqrt())
+    # exact coincidences (class 20): |v| == |w| bit for bit (axis-aligned and generic, both hemispheres), log-scale == angle,
+    # angle == eps exactly, Log angle == 0.05 exactly (the calcQ switch) where a neighbouring float realises it
+    vg = (torch.tensor(AX[2], dtype=torch.float64) * s2).to(D)
+    cg = float(torch.norm(vg, 2, dim=-1))
+    ties = [("tie |v|==|w| axis", [s2, 0.0, 0.0, s2], 1.0, 1, 0.0), ("tie |v|==|w| axis,w<0", [0.0, -s2, 0.0, -s2], 2.0, 2, 0.5),
+            ("tie |v|==|w| generic", [float(vg[0]), float(vg[1]), float(vg[2]), cg], 0.0, 0, -0.5),
+            ("tie |v|==|w| generic,w<0", [float(vg[0]), float(vg[1]), float(vg[2]), -cg], 3.0, 3, 0.0),
+            ("tie sigma==theta", quat_of(0.3, AX[0]), 1.0, 1, 0.3), ("tie sigma==-theta", quat_of(0.3, AX[0], True), 1.0, 2, -0.3)]
+    x0 = torch.tensor(math.sin(0.025), dtype=D)
+    target = float(torch.tensor(0.05, dtype=D))
+    for kk in range(-60, 61):
+        xk = x0.clone()
+        for _ in range(abs(kk)):
+            xk = torch.nextafter(xk, torch.tensor(2.0 if kk > 0 else -2.0, dtype=D))
+        qk = torch.stack([xk, xk * 0, xk * 0, (1 - xk * xk).sqrt()])
+        try:
+            if float(P.LieTensor(qk, ltype=P.SO3_type).Log().tensor().norm()) == target:
+                ties.append(("tie Log angle==0.05", [float(v) for v in qk], 2.0, 1, 0.0))
+                break
+        except Exception:
+            break
+    for tag, q, tm, dr, ls in ties:
+        spec.append((tag, ("Q", q), 0, False, tm, dr, ls))
     for tag, ang, ax, neg, tm, dr, ls in spec:
-        if isinstance(ang, list):
+        if isinstance(ang, tuple):
+            q = list(ang[1])
+        elif isinstance(ang, list):
             q = [AX[ax][0] * ang[0], AX[ax][1] * ang[0], AX[ax][2] * ang[0], ang[1]]
         else:
             q = quat_of(ang, AX[ax], neg)
@@ -1159,6 +1187,21 @@ def corner_alg_rows(name, dtype):
         if name in ("RxSO3", "Sim3"):
             r.append(sg)
         rows.append((r, tag))
+    # exact ties (class 20) and sign / zero patterns that fool `max() == 0`, `sum() == 0`, `not any()` tests (class 26)
+    def mk(tag, tau, phi, sg):
+        r = []
+        if name in ("SE3", "Sim3"):
+            r += list(tau)
+        r += list(phi)
+        if name in ("RxSO3", "Sim3"):
+            r.append(sg)
+        rows.append((r, tag))
+    mk("tie th==0.05", (1.0, -2.0, 0.5), (0.05, 0.0, 0.0), 0.0)
+    mk("tie sigma==theta", (0.0, 1.0, 0.0), (0.0, 0.3, 0.0), 0.3)
+    mk("tie sigma==-theta", (1.0, 0.0, 0.0), (0.0, 0.0, -0.3), -0.3)
+    mk("tie th==eps,sg==eps", (1.0, 1.0, 1.0), (e, 0.0, 0.0), e)
+    mk("all<=0 with a zero (max==0)", (-1.0, 0.0, -2.0), (-0.3, 0.0, -0.2), -0.4)
+    mk("components sum to 0", (1.0, -1.0, 0.0), (0.3, -0.3, 0.0), 0.0)
     return rows
 
 
@@ -1210,6 +1253,8 @@ def run_corpus(ctx: Ctx):
                     "tags": ["corner"], "id": 1}
             for op in ("Adj", "AdjT", "Retr", "add", "Jinvp"):
                 case = dict(base, op=op, a_lt=(op != "add"))
+                if ctx.quick and op in ("AdjT", "add"):
+                    case["a"], case["shape_a"] = Ar[::2], [len(Ar[::2])]
                 if op == "add":
                     case.update(api="+", extra=0, alpha=1.0)
                 pend += prepare(ctx, case)
@@ -1495,6 +1540,20 @@ def run_views(ctx: Ctx):
 
 # ----------------------------------------------------------------------------- grad modes, argument forms, atomicity, copies, ownership, sizes
 
+import contextlib as _ctxlib
+
+
+@_ctxlib.contextmanager
+def default_dtype(dt_):
+    """process-wide default dtype switched around a call (class 25) and restored"""
+    old = torch.get_default_dtype()
+    torch.set_default_dtype(dt_)
+    try:
+        yield
+    finally:
+        torch.set_default_dtype(old)
+
+
 def _val(z):
     z = z.tensor() if hasattr(z, "ltype") else z
     return z.detach()
@@ -1515,6 +1574,9 @@ def spellings(P, name, algT):
         "pp.add(X,a)": lambda X, a, aL: P.add(X, a), "X.add(a,alpha=0.5)": lambda X, a, aL: X.add(a, alpha=0.5),
         "X.add(a,0.5)": lambda X, a, aL: X.add(a, 0.5), "pp.add(X,a,alpha=-2)": lambda X, a, aL: P.add(X, a, alpha=-2),
         "X.add(other=a,alpha=3)": lambda X, a, aL: X.add(other=a, alpha=3), "Exp(aL)@X": lambda X, a, aL: aL.Exp() @ X,
+        "X.add(a,alpha=np.float64(0.5))": lambda X, a, aL: X.add(a, alpha=__import__("numpy").float64(0.5)),
+        "X.add(a,alpha=np.float32(-2))": lambda X, a, aL: X.add(a, alpha=__import__("numpy").float32(-2.0)),
+        "X.add(a,alpha=-3)": lambda X, a, aL: X.add(a, alpha=-3), "X.add(a,alpha=0)": lambda X, a, aL: X.add(a, alpha=0),
         "Exp(aL)*X": lambda X, a, aL: aL.Exp() * X, "aL+a": lambda X, a, aL: aL + a, "aL.add(a,alpha=2)": lambda X, a, aL: aL.add(a, alpha=2),
     }
     if name == "SO3":
@@ -1522,6 +1584,45 @@ def spellings(P, name, algT):
         sp["aL.Jr()"] = lambda X, a, aL: aL.Jr()
         sp["pp.Jr(aL)"] = lambda X, a, aL: P.Jr(aL)
     return sp
+
+
+def mode_order_probe(ctx: Ctx):
+    """class 23: a module-level cache filled under inference_mode / no_grad and reused by a later autograd call of the same key.  Batch
+    sizes 11 / 13 / 17 are fresh in the process when this runs (it is the first stream); for each: first mode, then the other, then
+    backward through the autograd result; values equal across modes and backward runs (the gradients themselves are C04's subject)."""
+    P = U.pp()
+    for name in U.GROUPS:
+        for dtype in ("float64", "float32"):
+            D = U.dt(dtype)
+            algT = getattr(P, U.ALG[name] + "_type")
+            sp = spellings(P, name, algT)
+            keys = [k2 for k2 in ("X.Adj(a)", "X.AdjT(a)", "X.Jinvp(a)", "X.Retr(aL)", "X+a", "X.add(a,alpha=0.5)", "X.Jr()", "aL.Jr()", "aL+a") if k2 in sp]
+            for n, first in ((11, torch.inference_mode), (13, torch.no_grad), (17, None)):
+                Xt, at = big_operands(name, (n,), (n,), D, 4000 + n)
+                case = {"stream": "modes", "type": name, "dtype": dtype, "batch": n, "first_mode": getattr(first, "__name__", "grad")}
+                for k2 in keys:
+                    ctx.count("modes.order-of-modes")
+                    ctx.note_case(("mode-order", name, dtype, n, k2), True)
+                    try:
+                        def call(rg):
+                            X = P.LieTensor(Xt.clone(), ltype=U.ltype(name)).requires_grad_(rg)
+                            a = at.clone().requires_grad_(rg)
+                            return X, a, sp[k2](X, a, P.LieTensor(a, ltype=algT))
+                        if first is not None:
+                            with first():
+                                z1 = _val(call(False)[2]).clone()
+                        X, a, z = call(True)
+                        zt = z.tensor() if hasattr(z, "ltype") else z
+                        zt.sum().backward()
+                        if first is None:
+                            with torch.inference_mode():
+                                z1 = _val(call(False)[2]).clone()
+                        if not _same(_val(z), z1):
+                            ctx.fail(case | {"op": k2}, f"mode-order: {k2} returns other values in autograd than under {case['first_mode'] if first else 'inference_mode'} "
+                                                       f"for the same batch of {n} ({name}, {dtype})")
+                    except Exception as ex:
+                        ctx.fail(case | {"op": k2}, f"mode-order: {k2} in autograd after a {case['first_mode']} call of the same size raised {type(ex).__name__}: "
+                                                   f"{str(ex)[:120]} ({name}, {dtype})")
 
 
 def run_modes(ctx: Ctx):
@@ -1545,8 +1646,10 @@ def run_modes(ctx: Ctx):
         sp = spellings(P, name, algT)
         case = {"stream": "modes", "type": name, "dtype": dtype}
 
-        def mk(rgX=False, rga=False, param=False, nonleaf=False):
-            X = P.LieTensor(Xd.clone(), ltype=U.ltype(name))
+        UserType = type("User" + type(U.ltype(name)).__name__, (type(U.ltype(name)),), {})     # a user subclass of the shipped LieType
+
+        def mk(rgX=False, rga=False, param=False, nonleaf=False, userlt=False):
+            X = P.LieTensor(Xd.clone(), ltype=UserType() if userlt else U.ltype(name))
             a = ad.clone()
             if param:
                 X = P.Parameter(X)
@@ -1567,7 +1670,8 @@ def run_modes(ctx: Ctx):
             order_log[(name, dtype)] = base
             for k2, al in (("X+a", 1.0), ("X+aL", 1.0), ("X.add(a)", 1.0), ("X.add(aL)", 1.0), ("pp.add(X,a)", 1.0), ("X.add(a,alpha=0.5)", 0.5),
                            ("X.add(a,0.5)", 0.5), ("pp.add(X,a,alpha=-2)", -2.0), ("X.add(other=a,alpha=3)", 3.0), ("X.Retr(aL)", 1.0),
-                           ("pp.Retr(X,aL)", 1.0), ("Exp(aL)*X", 1.0)):
+                           ("pp.Retr(X,aL)", 1.0), ("Exp(aL)*X", 1.0), ("X.add(a,alpha=np.float64(0.5))", 0.5), ("X.add(a,alpha=np.float32(-2))", -2.0),
+                           ("X.add(a,alpha=-3)", -3.0), ("X.add(a,alpha=0)", 0.0)):
                 ref = _val(P.LieTensor(al * ad, ltype=algT).Exp() @ X)
                 sgm = (al * ad[..., U.SIGIDX[name]]).double() if U.SIGIDX[name] is not None else torch.zeros(3, dtype=torch.float64)
                 ntau_ = (al * ad[..., U.TAUSL[name]]).double().norm(dim=-1) if U.TAUSL[name] is not None else torch.zeros(3, dtype=torch.float64)
@@ -1592,7 +1696,13 @@ def run_modes(ctx: Ctx):
                         ("no_grad, plain", dict(), torch.no_grad),
                         ("inference_mode, plain", dict(), torch.inference_mode),
                         ("inference_mode, requires_grad both", dict(rgX=True, rga=True), torch.inference_mode),
-                        ("enable_grad inside no_grad, requires_grad X", dict(rgX=True), None)]
+                        ("enable_grad inside no_grad, requires_grad X", dict(rgX=True), None),
+                        ("default dtype float64", dict(), lambda: default_dtype(torch.float64)),
+                        ("default dtype float64, requires_grad both", dict(rgX=True, rga=True), lambda: default_dtype(torch.float64)),
+                        ("user subclass of the LieType", dict(userlt=True), contextlib.nullcontext)]
+            if ctx.quick and dtype == "float32":      # quick tier: the second dtype runs the mode variants that differ most
+                variants = [v for v in variants if v[0] in ("requires_grad both", "no_grad, requires_grad both", "inference_mode, plain",
+                                                            "default dtype float64", "pp.Parameter X / nn.Parameter a")]
             for vlab, kw, cm in variants:
                 X, a, aL = mk(**kw)
                 for k2, f in sp.items():
@@ -1893,6 +2003,197 @@ def run_dispatch(ctx: Ctx, n_cases: int):
                 break
 
 
+# ----------------------------------------------------------------------------- large batches: chunk / block boundaries (class 19, 28)
+
+def big_operands(name, shape_x, shape_a, D, seed):
+    """deterministic valid operands built with torch ops (no python loops): mixed regimes, ordinary LAST item"""
+    g = torch.Generator().manual_seed(seed)
+    G, A = U.GDIM[name], U.ADIM[name]
+    nx, na = int(math.prod(shape_x)), int(math.prod(shape_a))
+    q = torch.randn(nx, 4, generator=g, dtype=torch.float64)
+    small = torch.rand(nx, 1, generator=g, dtype=torch.float64) < 0.1          # 10 % tiny rotations
+    q[:, :3] = torch.where(small, q[:, :3] * 1e-9, q[:, :3])
+    q = q / q.norm(dim=-1, keepdim=True)
+    t = torch.randn(nx, 3, generator=g, dtype=torch.float64) * 3
+    sc = torch.exp(0.5 * torch.randn(nx, 1, generator=g, dtype=torch.float64))
+    X = {"SO3": q, "SE3": torch.cat([t, q], -1), "RxSO3": torch.cat([q, sc], -1), "Sim3": torch.cat([t, q, sc], -1)}[name]
+    a = torch.randn(na, A, generator=g, dtype=torch.float64)
+    a = torch.where(torch.rand(na, 1, generator=g, dtype=torch.float64) < 0.05, a * 0, a)       # 5 % zero tangent vectors
+    if nx:
+        X[nx - 1] = X[nx - 1].clone()
+    if na:
+        a[na - 1] = torch.linspace(0.3, -0.7, A, dtype=torch.float64)                      # the LAST item is ordinary
+    return X.reshape(tuple(shape_x) + (G,)).to(D), a.reshape(tuple(shape_a) + (A,)).to(D)
+
+
+LARGE_OPS = ["Adj", "AdjT", "Jinvp", "Retr", "add", "add_", "Jr", "jr", "algadd"]
+
+
+def large_call(P, name, op, Xt, at):
+    algT = getattr(P, U.ALG[name] + "_type")
+    if op == "algadd":
+        return (P.LieTensor(at, ltype=algT) + at.flip(0)).tensor()
+    if op == "jr":
+        return P.LieTensor(at, ltype=algT).Jr()
+    X = P.LieTensor(Xt, ltype=U.ltype(name))
+    if op == "Adj":
+        return X.Adj(at).tensor()
+    if op == "AdjT":
+        return X.AdjT(P.LieTensor(at, ltype=algT)).tensor()
+    if op == "Jinvp":
+        return X.Jinvp(at).tensor()
+    if op == "Retr":
+        return X.Retr(P.LieTensor(at, ltype=algT)).tensor()
+    if op == "add":
+        return (X + at).tensor()
+    if op == "add_":
+        so = tuple(torch.broadcast_shapes(Xt.shape[:-1], at.shape[:-1]))
+        Y = P.LieTensor(Xt.expand(so + Xt.shape[-1:]).clone(), ltype=U.ltype(name))
+        Y.add_(at, alpha=-0.5)
+        return Y.tensor()
+    if op == "Jr":
+        return X.Jr()
+    raise ValueError(op)
+
+
+def large_case(ctx, name, dtype, op, sx, sa, seed, pend):
+    """one large call: split-consistency along every full-size batch axis, single-item calls for first / last / random items, the
+    model on a sample that includes the LAST item"""
+    P = U.pp()
+    D, e = U.dt(dtype), teps(dtype)
+    G, A = U.GDIM[name], U.ADIM[name]
+    Xt, at = big_operands(name, sx, sa, D, seed)
+    case = {"stream": "large", "type": name, "dtype": dtype, "op": op, "shape_X": list(sx), "shape_a": list(sa), "data_seed": seed}
+    so = tuple(torch.broadcast_shapes(sx, sa))
+    n = int(math.prod(so))
+    ctx.note_case(("large", name, dtype, op, tuple(sx), tuple(sa)), True)
+    ctx.count(f"large.{op}.{n}")
+    try:
+        Z = large_call(P, name, op, Xt, at)
+        if not bool(torch.isfinite(Z).all()):
+            bad = (~torch.isfinite(Z)).reshape(n, -1).any(-1).nonzero().flatten()[:3].tolist() if Z.numel() else []
+            ctx.fail(case | {"items": bad}, f"large: {op} on {name} lshapes {sx},{sa} ({dtype}) returned non-finite values at flat items {bad} of {n}")
+            return
+        if op in ("Jr", "jr", "algadd"):
+            src = Xt if op == "Jr" else at
+            full = lambda lo, hi: large_call(P, name, op, Xt[lo:hi] if op == "Jr" else None, at[lo:hi] if op != "Jr" else at)
+            n0 = src.shape[0]
+            for cut in sorted({1, n0 // 2, 1 << 14, n0 - 1} & set(range(1, n0))):
+                if op == "algadd":
+                    continue      # the flip pairs items across the cut: single-item / model checks below cover it
+                z2 = torch.cat([full(0, cut), full(cut, n0)], 0)
+                if not torch.equal(Z, z2):
+                    j = int((Z != z2).reshape(n0, -1).any(-1).nonzero()[0])
+                    ctx.fail(case | {"cut": cut, "item": j}, f"large-split: {op} of a batch of {n0} differs from the two halves cut at {cut} (first at item {j}) ({name}, {dtype})")
+                    return
+            if op == "algadd":
+                if not torch.equal(Z, at + at.flip(0)):
+                    j = int((Z != at + at.flip(0)).reshape(n0, -1).any(-1).nonzero()[0])
+                    ctx.fail(case | {"item": j}, f"large: algebra + on a batch of {n0} is not vector addition at item {j} ({name}, {dtype})")
+            else:
+                for i in sorted({0, n0 - 1, (1 << 14) - 1, 1 << 14} & set(range(n0))):
+                    zi = full(i, i + 1)
+                    if not torch.equal(zi[0], Z[i]):
+                        ctx.fail(case | {"item": i}, f"large-item: item {i} of {op} on a batch of {n0} differs from the single call ({dtype})")
+                        return
+            return
+        # split along each operand axis that has the full extent
+        for which, T_, dimlen in (("X", Xt, Xt.shape[0] if len(sx) else 0), ("a", at, at.shape[0] if len(sa) else 0)):
+            if dimlen < 2:
+                continue
+            off = len(so) - (len(sx) if which == "X" else len(sa))       # axis of the result this operand axis maps to
+            for cut in sorted({1, dimlen // 2, 1 << 14, dimlen - 1} & set(range(1, dimlen))):
+                if which == "X":
+                    parts = [large_call(P, name, op, Xt[:cut], at if (len(sa) < len(sx) or at.shape[0] == 1 or len(sa) > len(sx)) else at[:cut]),
+                             large_call(P, name, op, Xt[cut:], at if (len(sa) < len(sx) or at.shape[0] == 1 or len(sa) > len(sx)) else at[cut:])]
+                else:
+                    if len(sx) == len(sa) and Xt.shape[0] != 1:
+                        continue          # same-rank same-extent pair: already split together above
+                    parts = [large_call(P, name, op, Xt, at[:cut]), large_call(P, name, op, Xt, at[cut:])]
+                z2 = torch.cat(parts, off)
+                if z2.shape != Z.shape or not torch.equal(Z, z2):
+                    diff = (Z != z2).reshape(n, -1).any(-1).nonzero().flatten() if z2.shape == Z.shape else torch.tensor([-1])
+                    ctx.fail(case | {"cut": cut, "axis_of": which, "item": int(diff[0])},
+                             f"large-split: {op} on lshapes {sx},{sa} differs from the concatenation of the two parts of {which} cut at {cut} "
+                             f"(first at flat item {int(diff[0])} of {n}) ({name}, {dtype})")
+                    return
+        # single-item calls and the model on a sample
+        Xe = Xt.expand(so + (G,)).reshape(n, G)
+        ae = at.expand(so + (A,)).reshape(n, A)
+        Zf = Z.reshape(n, -1)
+        idx = sorted({0, n - 1, n - 2, (1 << 14) - 1, 1 << 14, (7919 * seed) % n, (104729 * seed) % n} & set(range(n)))
+        for i in idx:
+            zi = large_call(P, name, op, Xe[i:i + 1].clone(), ae[i:i + 1].clone()).reshape(-1)
+            if not torch.equal(torch.nan_to_num(zi, nan=1.2345), torch.nan_to_num(Zf[i], nan=1.2345)):
+                ctx.fail(case | {"item": i, "X": Xe[i].double().tolist(), "a": ae[i].double().tolist()},
+                         f"large-item: item {i} of {op} on a batch of {n} (lshapes {sx},{sa}) differs from the same call on that item alone by "
+                         f"{float((zi.double() - Zf[i].double()).abs().max()):.3e} ({name}, {dtype})")
+                return
+        for i in [n - 1, idx[len(idx) // 2]]:
+            x, av, got = Xe[i].double().tolist(), ae[i].double().tolist(), Zf[i].double().tolist()
+            c2 = case | {"item": {"index": i, "X": x, "a": av}}
+            if op in ("Adj", "AdjT"):
+                fn = adj_errfn(name, dtype, x, av, op == "AdjT", got)
+                line = mlines(f"{name}.{op}", e, x + av, False)
+            elif op in ("Retr", "add"):
+                fn = retr_errfn(name, dtype, x, av, got)
+                line = mlines(f"{name}.Retr", e, x + av, flag_alg(name, av, e))
+            elif op == "add_":
+                aeff = [-0.5 * v for v in av]
+                fn = retr_errfn(name, dtype, x, aeff, got)
+                line = [f"{name}.add " + common.wire_list([e, -0.5] + x + av)]
+            else:
+                xi = P.LieTensor(Xe[i:i + 1].clone(), ltype=U.ltype(name)).Log().tensor().double()[0].tolist()
+                fn = jinvp_errfn(name, dtype, xi, av, got)
+                line = mlines(f"{name}.Jinvp", e, x + av, flag_grp(name, x, e))
+
+            def chk(cands, fn=fn, c2=c2, i=i):
+                r, errs = best(cands, fn)
+                if bad_blocks(errs):
+                    ctx.disagree("large", c2, f"{op} {name} {dtype}: item {i} of a batch of {n}: block errors {bad_blocks(errs)}")
+                    if op == "Jinvp":     # concrete failing input from the exact oracle with the batched value
+                        jinvp_oracle_case(ctx, {"stream": "jinvp", "type": name, "dtype": dtype, "X": c2["item"]["X"], "p": c2["item"]["a"], "fd": False,
+                                                "batched_from": {"shape_X": list(sx), "shape_a": list(sa), "data_seed": seed, "index": i}}, got=got)
+                    elif op in ("Adj", "AdjT"):
+                        adj_oracle_case(ctx, {"stream": "adj", "type": name, "dtype": dtype, "op": op, "X": c2["item"]["X"], "a": c2["item"]["a"]}, got=got)
+            pend.append(Pending(line, chk))
+    except Exception as ex:
+        ctx.fail(case, f"raises: {op} on {name} lshapes {sx},{sa} ({dtype}) raised {type(ex).__name__}: {str(ex)[:160]}")
+
+
+def run_large(ctx: Ctx):
+    """batches of 2^14+1 / 2^16+1 (thorough: also 2^14, 2^14-1, 2^15+1, 2^16) items, given directly, as a 2-d lshape with that element
+    count, and reached by broadcasting ((5,1) x (3277,), () x (n,)); plus sizes on both sides of small kernel switch-overs (32/33,
+    128/129, 1024/1025).  Deterministic."""
+    pend = []
+    n1, n2 = (1 << 14) + 1, (1 << 16) + 1
+    plans = []
+    for name in U.GROUPS:
+        for op in LARGE_OPS:
+            if op in ("Jr", "jr") and name != "SO3":
+                continue
+            plans.append((name, "float64", op, (n1,), (n1,)))
+            if op in ("Adj", "Jinvp", "add", "AdjT"):
+                plans.append((name, "float64", op, (5, 1), (3277,)))
+            if (op == "Jinvp" or (op == "Adj" and not ctx.quick)) and name in ("SE3", "Sim3"):
+                plans.append((name, "float64", op, (n2,), (n2,)))
+                plans.append((name, "float32", op, (n1,), (n1,)))
+                plans.append((name, "float32", op, (3277, 1), (1, 5)))
+                plans.append((name, "float64", op, (), (n1,)))
+                plans.append((name, "float64", op, (n1,), ()))
+            if op == "Jinvp":
+                for k in (33, 129, 1025):
+                    plans.append((name, "float32", op, (k,), (k,)))
+            if not ctx.quick:
+                for k in (1 << 14, (1 << 14) - 1, (1 << 15) + 1, 1 << 16):
+                    plans.append((name, "float64", op, (k,), (k,)))
+                plans.append((name, "float32", op, (n2,), (n2,)))
+                plans.append((name, "float64", op, (127, 129), (129,)))
+    for i, (name, dtype, op, sx, sa) in enumerate(plans):
+        large_case(ctx, name, dtype, op, sx, sa, 1000 + i, pend)
+    flush(ctx, pend)
+
+
 # ----------------------------------------------------------------------------- entry points
 
 def run(ctx: Ctx):
@@ -1908,16 +2209,18 @@ def run(ctx: Ctx):
         if name == "SO3":
             r["Jr"] = lambda o: o.Jr()
         return r
-    torch.set_num_threads(2)
+    torch.set_num_threads(1)     # single intra-op thread: several threads are ~30x slower on small ops when the box is busy
+    mode_order_probe(ctx)
     _UL.persistent_probe(ctx, _reads)
     history_probe(ctx)
     run_views(ctx)
     run_modes(ctx)
+    run_large(ctx)
     run_corpus(ctx)
     run_dispatch(ctx, ctx.pick(120, 2000))
     run_ops(ctx, ctx.pick(450, 7000))
-    run_laws(ctx, ctx.pick(200, 5000))
-    run_jinvp_oracle(ctx, ctx.pick(120, 2500))
+    run_laws(ctx, ctx.pick(160, 5000))
+    run_jinvp_oracle(ctx, ctx.pick(90, 2500))
     run_jr_oracle(ctx, ctx.pick(80, 2000))
 
 
@@ -1994,8 +2297,8 @@ def replay(ctx: Ctx, case) -> bool:
         ok = jr_oracle_case(ctx, c)
     elif st == "adj":
         ok = adj_oracle_case(ctx, c)
-    elif st in ("history", "views", "persistent", "modes"):   # deterministic streams: re-run the whole (seed independent) stream
-        {"history": history_probe, "views": run_views, "modes": run_modes}.get(st, lambda cx: run(cx))(ctx)
+    elif st in ("history", "views", "persistent", "modes", "large"):   # deterministic streams: re-run the whole (seed independent) stream
+        {"history": history_probe, "views": run_views, "modes": run_modes, "large": run_large}.get(st, lambda cx: run(cx))(ctx)
         ok = len(ctx.failures) == n0
     else:
         pend = prepare(ctx, c)
